@@ -14,7 +14,7 @@ def check(run, replay=None):
               "recorded tape (seed, nonces) and compared on: result class of encrypt_with_proof, serialised proof bytes, "
               "verify, decrypt, from_bytes, re-serialisation, verify/decrypt of the parsed object; plus BigUint byte codecs and "
               "mod_inverse on their own. Non-trivial = produced proofs. Implementation-only oracle: verify = Ok, decrypt = x, "
-              "round trip identical, parameter range."),
+              "round trip identical, parameter range. Refused parameters also include 2^k + {0,127,128,129,200,255,256,257} for k = 8..63, usize::MAX and neighbours (the model takes the parameter at usize width)."),
         trusted_extra=["harness/src/c09.rs: rsa (Pkcs1v15Encrypt, ChaCha20Rng::from_seed), curve25519-dalek and k256 "
                        "GroupEncoding behind the model's rsa_enc/rsa_dec/group oracles; ocaml/drv_c09.ml"],
         assumptions=["RSA PKCS#1 v1.5 correctness (rsa_dec sk (rsa_enc seed pk m) = Some m for |m| + 11 <= k) is a hypothesis "
